@@ -63,6 +63,11 @@ def check_molecule(ast, style, ws, viol):
     els = mol._elements
     want = ast["elements"]
     K = "C02/Molecule.__init__/post"
+    # the object invariants that the generator proofs assume of every parsed object (contracts: _STOCH_REQ, token_wf)
+    from monitor.invcheck import failed_invariants
+    for lab in failed_invariants(mol):
+        viol.append({"key": f"C02/parse/post[assumed-invariant:{lab}]", "clause": "invariant of parsed objects that the generator contracts assume (stoch_inv / token_wf)",
+                     "detail": {"invariant": lab}, "input": inp})
     if len(els) != len(want) or any(isinstance(e, Stochastic) != isinstance(w, dict) for e, w in zip(els, want)):
         viol.append({"key": K + "[elements]", "clause": "order and kind of elements", "detail": {"got": [type(e).__name__ for e in els], "want": len(want)}, "input": inp})
         return text
